@@ -101,12 +101,16 @@ func (p *MultilineAction) Do(event *pipeline.Event) pipeline.ActionResult {
 
 	// don't need to unescape/escape log fields cause concatenation of escaped strings is escaped string.
 	// get escaped string because of CRI format.
-	buf.B = event.Root.Dig("log").AppendEscapedString(buf.B)
-	logFragment := pipeline.ByteToStringUnsafe(buf.B)
-	if logFragment == "" {
-		p.logger.Fatalf("wrong event format, it doesn't contain log field: %s", event.Root.EncodeToString())
-		panic("_")
+	logNode := event.Root.Dig("log")
+	if !logNode.IsString() {
+		// the content of a log file must not stop the collector: the event is dropped like an undecodable line,
+		// and so is the unfinished line in the buffer (like on timeout), because the sequence is broken.
+		p.logger.Errorf("wrong event format, it doesn't contain string log field: %s", event.Root.EncodeToString())
+		p.resetLogBuf()
+		return pipeline.ActionDiscard
 	}
+	buf.B = logNode.AppendEscapedString(buf.B)
+	logFragment := pipeline.ByteToStringUnsafe(buf.B)
 
 	// docker splits long logs by 16kb chunks, so let's join them
 	// look ahead to ensure we won't throw events longer than SplitEventSize
